@@ -44,14 +44,14 @@ type Node struct {
 	Keys []string `json:"keys,omitempty"`
 }
 
-func nNull() *Node           { return &Node{K: kNull} }
-func nBool(b bool) *Node     { return &Node{K: kBool, B: b} }
-func nInt(i int64) *Node     { return &Node{K: kInt, I: i} }
-func nBig(s string) *Node    { return &Node{K: kBig, S: s} }
-func nFloat(s string) *Node  { return &Node{K: kFloat, S: s} }
-func nStr(s string) *Node    { return &Node{K: kStr, S: s} }
-func nArr(a ...*Node) *Node  { return &Node{K: kArr, A: a} }
-func nObj() *Node            { return &Node{K: kObj} }
+func nNull() *Node            { return &Node{K: kNull} }
+func nBool(b bool) *Node      { return &Node{K: kBool, B: b} }
+func nInt(i int64) *Node      { return &Node{K: kInt, I: i} }
+func nBig(s string) *Node     { return &Node{K: kBig, S: s} }
+func nFloat(s string) *Node   { return &Node{K: kFloat, S: s} }
+func nStr(s string) *Node     { return &Node{K: kStr, S: s} }
+func nArr(a ...*Node) *Node   { return &Node{K: kArr, A: a} }
+func nObj() *Node             { return &Node{K: kObj} }
 func nTime(t time.Time) *Node { return &Node{K: kTime, S: t.UTC().Format(time.RFC3339Nano)} }
 
 func (n *Node) put(key string, v *Node) *Node {
